@@ -25,7 +25,7 @@ func (fx *fnExec) indexAnchors() map[ssa.Instruction]anchorInfo {
 	}
 	var evs []ev
 	seq := 0
-	for _, b := range fx.fn.Blocks {
+	for _, b := range fx.rootFn().Blocks {
 		for _, in := range b.Instrs {
 			seq++
 			base := ""
@@ -138,7 +138,10 @@ func (fx *fnExec) anchorAsserts(st *state, in ssa.Instruction, extra map[string]
 		c := &specCtx{fx: fx, cur: st, old: fx.entry, names: fx.params, locals: fx.localLookup(st, in.Block()), pkg: fx.pkg}
 		c = c.with(extra)
 		c.locals = fx.localLookup(st, in.Block())
-		v := c.eval(a.Expr)
+		v, ok := fx.tryEval(c, a.Expr, "assert ["+a.Label+"]")
+		if !ok {
+			continue
+		}
 		fx.addObl("assert", a.Label, fx.clauseProps(a, fx.funProps()), v.term, in.Pos(), a.Src)
 	}
 }
@@ -433,8 +436,8 @@ func (fx *fnExec) execInstr(st *state, in ssa.Instruction) {
 		var conds []string
 		for i, e := range x.Edges {
 			p := x.Block().Preds[i]
-			k := [2]int{p.Index, x.Block().Index}
-			if fx.backEdge[k] {
+			k := [2]int{fx.kb + p.Index, fx.kb + x.Block().Index}
+			if fx.kb == 0 && fx.backEdge[k] {
 				fx.fail("phi with loop-carried operand unsupported")
 			}
 			c, ok := fx.edge[k]
@@ -508,6 +511,10 @@ func (fx *fnExec) execInstr(st *state, in ssa.Instruction) {
 		fx.heapSet(st, md, ds, fmt.Sprintf("(store %s %s (store (select %s %s) %s true))", hd, m, hd, m, k))
 		fx.heapSet(st, mv, vs, fmt.Sprintf("(store %s %s (store (select %s %s) %s %s))", hv, m, hv, m, k, v))
 	case *ssa.Send:
+		if fx.inl != nil && fx.inl.sink != nil {
+			*fx.inl.sink = fx.operand(st, x.X)
+			fx.inl.sent = true
+		}
 		extra := map[string]sval{"sent": fx.toSval(fx.operand(st, x.X)), "chan": fx.toSval(fx.operand(st, x.Chan))}
 		fx.anchorAsserts(st, in, extra)
 		fx.anchorGhostSets(st, in, extra)
@@ -560,12 +567,17 @@ func (fx *fnExec) execInstr(st *state, in ssa.Instruction) {
 	}
 }
 
-func (fx *fnExec) vname(v ssa.Value) string { return "v!" + v.Name() }
+func (fx *fnExec) vname(v ssa.Value) string {
+	if fx.kb != 0 {
+		return fmt.Sprintf("v!i%d!%s", fx.kb/1000000, v.Name())
+	}
+	return "v!" + v.Name()
+}
 
 func (fx *fnExec) flow(st *state, from, to *ssa.BasicBlock, cond string, in ssa.Instruction) {
-	k := [2]int{from.Index, to.Index}
-	ec := and(fx.reach[from.Index], cond)
-	if fx.backEdge[k] {
+	k := [2]int{fx.kb + from.Index, fx.kb + to.Index}
+	ec := and(fx.reach[fx.kb+from.Index], cond)
+	if fx.kb == 0 && fx.backEdge[k] {
 		li := fx.loops[to.Index]
 		pos := in.Pos()
 		if !pos.IsValid() {
@@ -580,7 +592,7 @@ func (fx *fnExec) flow(st *state, from, to *ssa.BasicBlock, cond string, in ssa.
 	} else {
 		fx.edge[k] = ec
 	}
-	fx.out[from.Index] = st
+	fx.out[fx.kb+from.Index] = st
 }
 
 func (fx *fnExec) lastPos(b *ssa.BasicBlock) token.Pos {
@@ -918,6 +930,14 @@ func (fx *fnExec) execTypeAssert(st *state, x *ssa.TypeAssert) {
 }
 
 func (fx *fnExec) execReturn(st *state, x *ssa.Return) {
+	if fx.inl != nil {
+		var rs []val
+		for _, r := range x.Results {
+			rs = append(rs, fx.operand(st, r))
+		}
+		fx.inl.rets = append(fx.inl.rets, inlineRet{cond: fx.reach[fx.ck], st: st.clone(), results: rs})
+		return
+	}
 	fx.anchorAsserts(st, x, nil)
 	names := map[string]sval{}
 	for k, v := range fx.params {
@@ -938,7 +958,10 @@ func (fx *fnExec) execReturn(st *state, x *ssa.Return) {
 	}
 	c := &specCtx{fx: fx, cur: st, old: fx.entry, names: names, pkg: fx.pkg}
 	for _, e := range fx.ct.Ensures {
-		v := c.eval(e.Expr)
+		v, ok := fx.tryEval(c, e.Expr, "ensures ["+e.Label+"]")
+		if !ok {
+			continue
+		}
 		fx.addObl("ensures", e.Label, fx.clauseProps(e, fx.funProps()), v.term, x.Pos(), e.Src)
 	}
 	// ghost frame: ghosts changed must be in modifies
